@@ -1,253 +1,367 @@
 """C07 - preprocessing validates binding and renames variables without changing meaning.
 
-Decided here (alpha-equivalence and idempotence over all trees are value-level and not decided):
-  C07-R1  classification agreement: every site that branches on the hybrid operator partitions it the same way -
-          quantifiers {Bind, Exists, Forall} versus {Jump}: the scope extension in validate_and_rename_recursive, the
-          variable collection in collect_unique_hctl_vars_recursive, the jump arm and the quantifier wrapper of the
-          evaluator (the latter two through the C01 shapes);
-  C07-R2  check before use: a variable terminal is renamed only through the scope map and absence returns Err; a
-          quantifier whose variable is already in the map returns Err before the map is extended; a jump whose target
-          is not in the map returns Err; a proposition reaches Ok only if find_network_variable(name) is some;
-  C07-R3  depth naming and sibling isolation: the name inserted for a quantifier is the parent's name extended by exactly
-          one push, on the quantifier path only; the child receives exactly that extended map and name; unary and binary
-          children receive the parent's map and name unchanged; the scope map is a by-value parameter (a callee cannot
-          leak bindings into a sibling) - if it is not, every insert must be paired with a remove for the same operators;
-          the function keeps no other state (no memo table, no extra parameters);
-  C07-R4  must-pass-through: every string-based entry point and the command-line analysis evaluate only trees
-          that are results of validate_props_and_rename_vars, and check_hctl_var_support counts exactly the quantifier
-          variables collected from that tree;
-  C07-R5  reconstruction: every node is rebuilt through the public constructors from the validated children and the
-          node's own operator / domain (nothing is dropped or reordered)."""
+Decided here (alpha-equivalence and idempotence over all trees are value-level and not decided).  The validator
+validate_and_rename_recursive(tree, scope, last_name, ctx) is *partially evaluated* for every node shape (online partial
+evaluation of the resolved HIR, idiom normal forms) and the value it returns is compared with the specification:
+  C07-R1  shapes and classification: for every atom kind, unary and binary nodes and each of the four hybrid operators the
+          returned value is (scope = the by-value map old-name -> new-name, `name'` = last_name extended by exactly one `x`)
+            Var(v)                 Ok(mk_variable(scope[v]))                       if scope has v, Err otherwise
+            Prop(p)                Ok(tree)                                        if ctx.find_network_variable(p) is some, Err otherwise
+            True/False/%w%         Ok(tree)
+            Unary(op, c)           Ok(mk_unary(rec(c, scope, last_name)?, op))
+            Binary(op, l, r)       Ok(mk_binary(rec(l, scope, last_name)?, rec(r, scope, last_name)?, op))   (siblings see the same scope)
+            Q{var}[dom]: c         Err if scope has var, else Ok(mk_hybrid(rec(c, scope+{var->name'}, name')?, name', dom, Q))   Q = bind, exists, forall
+            @{var}: c              Ok(mk_hybrid(rec(c, scope, last_name)?, scope[var], None.., Jump))  if scope has var, Err otherwise
+          - this contains the quantifier / jump classification, check-before-use, depth naming, sibling isolation and the
+          reconstruction through the public constructors;
+  C07-R2  error propagation: errors of recursive calls are propagated (`?`), never swallowed;
+  C07-R3  no hidden state: the validator has exactly the four parameters above and its value depends on nothing else;
+  C07-R4  must-pass-through: every string-based entry point and the command-line analysis evaluate only trees that are
+          results of validate_props_and_rename_vars, after check_hctl_var_support, which compares the number of quantifier
+          variables collected from that tree (bind / exists / forall, all children visited) with the graph's spare sets."""
 import evalnode as E
+import norm
+import partial
 import pipelines
+import q
 import semantics as sem
 import terms
-from terms import subterms, pt, place_path
+from norm import GET, SOME_DESC
+from terms import subterms, pt
 
 LEVEL = "other"
 UTILS = "preprocessing::utils::"
+VALIDATE = UTILS + "validate_and_rename_recursive"
+COLLECT = "mc_utils::collect_unique_hctl_vars_recursive"
 QUANT = {"Bind", "Exists", "Forall"}
 
 
-def desc_variants(d):
-    if d[0] == "var":
-        return {str(d[1]).rsplit("::", 1)[-1]}
-    if d[0] == "or":
-        out = set()
-        for x in d[1]:
-            v = desc_variants(x)
-            if v is None:
-                return None
-            out |= v
+def ok(t):
+    return t[0] == "ctor" and str(t[1]).rsplit("::", 1)[-1] == "Ok" and len(t[2]) == 1
+
+
+def err(t):
+    return t[0] == "ctor" and str(t[1]).rsplit("::", 1)[-1] == "Err"
+
+
+def leaves(t, conds=()):
+    if isinstance(t, tuple) and t and t[0] == "ite":
+        return leaves(t[2], conds + ((t[1], True),)) + leaves(t[3], conds + ((t[1], False),))
+    if isinstance(t, tuple) and t and t[0] == "join":
+        out = []
+        for x in t[1]:
+            out += leaves(x, conds)
         return out
+    return [(conds, t)]
+
+
+def has_cond(conds, m, k):
+    """Polarity of `m has k` among the conditions (None if absent)."""
+    for t, pol in conds:
+        stack = [(t, pol)]
+        while stack:
+            x, p = stack.pop()
+            if x[0] == "not":
+                stack.append((x[1], not p))
+            elif x[0] == "bin" and x[1] == "&&" and p:
+                stack += [(x[2], True), (x[3], True)]
+            elif x[0] == "bin" and x[1] == "||" and not p:
+                stack += [(x[2], False), (x[3], False)]
+            else:
+                h = q.as_has(x)
+                if h is not None and h[0] == m and h[1] == k:
+                    return p
     return None
 
 
-def hybrid_class(pc):
-    """Set of HybridOp variants the path condition restricts the operator to (None = unrestricted)."""
-    res = None
-    for c in pc:
-        if c[0] == "match" and c[3]:
-            v = desc_variants(c[2])
-            if v and v <= {"Bind", "Exists", "Forall", "Jump"}:
-                res = v if res is None else res & v
-        if c[0] == "if" and c[1][0] == "matches":
-            v = desc_variants(c[1][2])
-            if v and v <= {"Bind", "Exists", "Forall", "Jump"}:
-                if c[2]:
-                    res = v if res is None else res & v
-                else:
-                    res = ({"Bind", "Exists", "Forall", "Jump"} - v) if res is None else res - v
-    return res
+def is_rec(t, fn_suffix, args_pred):
+    """t == proj(rec-call(args), Ok, 0) (the `?` of a recursive call) with args satisfying args_pred."""
+    if t[0] == "proj" and str(t[2]).rsplit("::", 1)[-1] == "Ok" and t[3] == 0:
+        c = t[1]
+        if c[0] in ("call", "rec") and isinstance(c[1], str) and c[1].endswith(fn_suffix):
+            return args_pred(c[2])
+    return False
+
+
+def name_plus_x(t, name):
+    """t is `name` extended by exactly one 'x' (push / push_str / format!("{name}x") / name + "x")."""
+    if t[0] == "mut" and t[1] == name and t[2][0] == "call" and isinstance(t[2][1], str) and t[2][1].rsplit("::", 1)[-1] in ("push", "push_str") \
+            and t[2][2] == (("lit", "x"),):
+        return True
+    import render
+    pieces = render.string_pieces(t)
+    if len(pieces) == 2 and isinstance(pieces[0], tuple) and pieces[0][1] == name and pieces[1] == "x":
+        return True
+    return False
+
+
+def scope_plus(t, scope, var, name):
+    """t is `scope` with exactly one more binding var -> name' (name' = name + 'x'); returns name' or None."""
+    if t[0] == "mut" and t[1] == scope and t[2][0] == "call" and isinstance(t[2][1], str) and t[2][1].rsplit("::", 1)[-1] == "insert" and len(t[2][2]) == 2:
+        k, v = t[2][2]
+        if k == var and name_plus_x(v, name):
+            return v
+    return None
 
 
 def run(prog, rep):
     rep.explanation = __doc__
     rep.assumptions = []
-    for r, t in (("C07-R1", "quantifier / jump classification agrees at all sites"), ("C07-R2", "scope checks dominate every use"),
-                 ("C07-R3", "depth naming, sibling isolation, no hidden state"), ("C07-R4", "evaluation only of validated trees"),
-                 ("C07-R5", "nodes rebuilt through the constructors from validated children")):
+    for r, t in (("C07-R1", "validator(shape) == specification for every node shape"), ("C07-R2", "errors of recursive calls are propagated"),
+                 ("C07-R3", "the validator has no hidden state"), ("C07-R4", "evaluation only of validated trees, after the support check")):
         rep.rule(r, t)
-    f = prog.lib_fn(UTILS + "validate_and_rename_recursive")
+    f = prog.lib_fn(VALIDATE)
     if f is None:
-        rep.unresolved("C07-R2", "validate_and_rename_recursive", "", "function not found")
+        rep.unresolved("C07-R1", "validate_and_rename_recursive", "", "function not found")
         return
     rep.functions.add(f.qual)
-    eng = terms.Engine(prog, inline=False)
-    s = eng.summary(f)
     where = f"{f.file}:{f.line}"
     pn = f.param_names()
-    if len(pn) != 4:
-        rep.unresolved("C07-R3", "validate/params", where, f"expected (tree, scope map, last name, context), found {pn}: extra state can make the result depend on history")
+    rep.check(len(pn) == 4 and not f.param_tys[1].startswith("&mut") and not f.param_tys[2].startswith("&mut"), "C07-R3", "validate/params", where,
+              "parameters: (tree, scope map by value, last name by value, context)",
+              f"parameters are {list(zip(pn, [t[:50] for t in f.param_tys]))}: extra or shared mutable state lets the result for a node depend on what was processed before "
+              "(a callee can leak bindings into a sibling)")
+    if len(pn) < 4:
         return
-    tree, smap, name, ctx = (("param", x) for x in pn)
-    nt = ("field", tree, "node_type")
-    hyb = lambda i: ("proj", nt, "preprocessing::hctl_tree::NodeType::Hybrid", i)    # noqa: E731
-    var = hyb(1)
+    tree, scope, name, ctx = (("param", x) for x in pn[:4])
+    eng = terms.Engine(prog, inline=True, hooks=E.Hooks([UTILS], opaque_names=[VALIDATE]))
+    nz = norm.Normalizer()
 
-    def mentions_map(t):
-        return terms.mentions_param(t, pn[1])
+    def spec(shape):
+        s = eng.specialise(f, {pn[0]: E.node_term(shape)})
+        if s is None:
+            return None, None
+        return s, nz(partial.simplify(s.ret))
 
-    # ---- R1 / R3: scope extension
-    ins = [x for x in s.sites if x.kind == "mcall" and x.name == "insert" and x.argnodes and place_path(x.argnodes[0]) == pn[1]]
-    rep.check(len(ins) == 1, "C07-R3", "validate/one-insert", where, "exactly one scope extension", f"{len(ins)} inserts into the scope map")
-    for x in ins:
-        cls = hybrid_class(x.pc)
-        rep.check(cls == QUANT, "C07-R1", "validate/scope-extension", x.where(), "scope extended exactly for bind, exists, forall",
-                  f"the scope map is extended for {sorted(cls) if cls else 'every operator'}; expected exactly {sorted(QUANT)}")
-        key_ok = x.args[1] == var
-        val = x.args[2]
-        pushes = [y for y in subterms(val) if y[0] == "call" and y[1].endswith("::push")]
-        one_push = len(pushes) == 1 and pushes[0][2] == (("lit", "x"),) and val[0] == "mut" and val[1] == name
-        rep.check(key_ok and one_push, "C07-R3", "validate/depth-name", x.where(), "scope[var] = parent's name + exactly one 'x'",
-                  f"inserted binding is {sem.short(x.args[1], 60)} -> {sem.short(val, 100)}")
-        guard = any(c[0] == "if" and not c[2] and c[1][0] == "call" and c[1][1].endswith("contains_key") and c[1][2] == (smap, var) for c in x.pc)
-        rep.check(guard, "C07-R2", "validate/requantification-before-insert", x.where(), "extension only after the re-quantification check",
-                  "the scope map is extended without first checking that the variable is not already bound")
-    byval = not f.param_tys[1].startswith("&")
-    if byval:
-        rep.ok("C07-R3", "validate/by-value-scope", where, "scope map and name are by-value parameters: a callee cannot leak bindings to a sibling")
-    else:
-        rems = [x for x in s.sites if x.kind == "mcall" and x.name == "remove" and x.argnodes and place_path(x.argnodes[0]) == pn[1]]
-        cls_r = set()
-        for x in rems:
-            cls_r |= hybrid_class(x.pc) or {"Bind", "Exists", "Forall", "Jump"}
-        rep.check(bool(rems) and QUANT <= cls_r and all(x.args[1] == var for x in rems), "C07-R3", "validate/paired-remove", where,
-                  "shared scope map: every binding is removed again for all three quantifiers",
-                  f"the scope map is shared (`{f.param_tys[1][:40]}`) and bindings are removed only for {sorted(cls_r)}: "
-                  "a binding outlives its quantifier and is visible in siblings")
-    # no other stateful look-ups
-    for x in s.sites:
-        if x.kind == "mcall" and x.name in ("get", "insert", "contains_key", "entry", "get_mut", "remove") and x.argnodes:
-            root = place_path(x.argnodes[0])
-            if root is not None and root.split(".")[0] not in (pn[1],):
-                rep.violation("C07-R3", f"validate/hidden-state:{root}@{x.ordinal}", x.where(),
-                              f"validate_and_rename_recursive consults `{root}`: the result for a node may depend on what was processed before")
-    # ---- R2
-    errs = [r for r in s.returns if r[5] == "return" and r[0][0] == "ctor" and str(r[0][1]).endswith("Err")]
+    def report(key, good, detail_ok, detail_bad):
+        rep.check(good, "C07-R1", key, where, detail_ok, detail_bad)
 
-    def err_under(cond_pred):
-        return any(any(cond_pred(c) for c in r[1]) for r in errs)
-
-    v_name = ("proj", ("proj", nt, "preprocessing::hctl_tree::NodeType::Terminal", 0), "preprocessing::operator_enums::Atomic::Var", 0)
-    mkv = [x for x in s.sites if x.kind == "call" and x.is_call_to("mk_variable")]
-    good = len(mkv) == 1 and mkv[0].args[0][0] == "call" and any(y[0] == "call" and y[1].endswith("::get") and y[2] == (smap, v_name) for y in subterms(mkv[0].args[0]))
-    guarded = good and any(c[0] == "if" and c[1] == ("not", ("call", c[1][1][1] if c[1][0] == "not" and c[1][1][0] == "call" else "", (smap, v_name))) and not c[2]
-                           for c in mkv[0].pc if c[0] == "if" and c[1][0] == "not")
-    free_err = err_under(lambda c: c[0] == "if" and c[2] and c[1][0] == "not" and c[1][1][0] == "call" and c[1][1][1].endswith("contains_key") and c[1][1][2] == (smap, v_name))
-    rep.check(good and guarded and free_err, "C07-R2", "validate/variable", mkv[0].where() if mkv else where,
-              "variable renamed through scope[name]; absent -> Err", f"renamed via scope map={good}, dominated by the presence check={guarded}, Err when free={free_err}")
-    requant = err_under(lambda c: c[0] == "if" and c[2] and c[1][0] == "call" and c[1][1].endswith("contains_key") and c[1][2] == (smap, var))
-    rq_cls = [hybrid_class(r[1]) for r in errs if any(c[0] == "if" and c[2] and c[1][0] == "call" and c[1][1].endswith("contains_key") and c[1][2] == (smap, var) for c in r[1])]
-    rep.check(requant and all(c == QUANT for c in rq_cls), "C07-R2", "validate/requantification", where, "re-quantified variable -> Err (for all three quantifiers)",
-              f"re-quantification is rejected for {[sorted(c) if c else None for c in rq_cls]}")
-    jump_err = False
-    for r in errs:
-        for c in r[1]:
-            if c[0] == "if" and c[2] and c[1][0] == "bin" and c[1][1] == "&&":
-                l, rr = c[1][2], c[1][3]
-                if l[0] == "matches" and desc_variants(l[2]) == {"Jump"} and rr[0] == "not" and rr[1][0] == "call" and rr[1][1].endswith("contains_key") and rr[1][2][1] == var:
-                    jump_err = True
-    rep.check(jump_err, "C07-R2", "validate/jump-target", where, "jump to an unbound variable -> Err", "a jump whose target is not in scope is not rejected")
-    p_name = ("proj", ("proj", nt, "preprocessing::hctl_tree::NodeType::Terminal", 0), "preprocessing::operator_enums::Atomic::Prop", 0)
-    fnv = [x for x in s.sites if x.kind == "mcall" and x.name == "find_network_variable" and x.args[1] == p_name and x.args[0] == ctx]
-    tail = [r for r in s.returns if r[5] == "tail"]
-    prop_ok = False
-    if fnv and tail:
-        for y in subterms(tail[0][0]):
-            if y[0] == "ite" and y[1][0] == "call" and y[1][1].endswith("is_none") and y[1][2] == (fnv[0].term,):
-                prop_ok = y[2][0] == "ctor" and str(y[2][1]).endswith("Err") and y[3][0] == "ctor" and str(y[3][1]).endswith("Ok")
-            if y[0] == "ite" and y[1][0] == "call" and y[1][1].endswith("is_some") and y[1][2] == (fnv[0].term,):
-                prop_ok = y[3][0] == "ctor" and str(y[3][1]).endswith("Err") and y[2][0] == "ctor" and str(y[2][1]).endswith("Ok")
-    rep.check(prop_ok, "C07-R2", "validate/proposition", fnv[0].where() if fnv else where, "proposition accepted iff it names a network variable",
-              "a proposition can be accepted without find_network_variable(name) being some")
-    rep.floor("C07-R2", 5)
-    # ---- R3: recursive calls
-    recs = [x for x in s.sites if x.kind == "call" and x.is_call_to("validate_and_rename_recursive")]
-    for x in recs:
-        a = x.args
-        kind = None
-        for c in x.pc:
-            if c[0] == "match" and c[3] and c[2][0] == "var":
-                kind = str(c[2][1]).rsplit("::", 1)[-1]
-        if kind in ("Unary", "Binary"):
-            rep.check(a[1] == smap and a[2] == name and a[3] == ctx, "C07-R3", f"validate/rec:{kind}@{x.ordinal}", x.where(),
-                      "child sees the parent's scope and name unchanged", f"child receives scope {sem.short(a[1], 80)}, name {sem.short(a[2], 60)}")
-        elif kind == "Hybrid":
-            # alternatives of the merged state: extended (quantifier path) or unchanged (jump path)
-            def alts(t):
-                if t[0] == "ite":
-                    return alts(t[2]) + alts(t[3])
-                if t[0] == "switch":
-                    return [y for _, v in t[2] for y in alts(v)]
-                return [t]
-            ma, na = alts(a[1]), alts(a[2])
-            ext = [m for m in ma if m != smap]
-            ok = (smap in ma and len(ext) == 1 and ext[0][0] == "mut" and ext[0][1] == smap and ins and ext[0][2][2][0] == var
-                  and name in na and len([n for n in na if n != name]) == 1)
-            rep.check(bool(ok) and a[0] == hyb(3), "C07-R3", f"validate/rec:Hybrid@{x.ordinal}", x.where(),
-                      "child of a hybrid node sees the scope extended by its own variable (quantifiers) or unchanged (jump)",
-                      f"child receives scope alternatives {[sem.short(m, 70) for m in ma]}")
-        else:
-            rep.unresolved("C07-R3", f"validate/rec@{x.ordinal}", x.where(), "recursive call outside the node-type match")
-    rep.floor("C07-R3", 7)
-    # ---- R5 reconstruction
-    for ctor, arity in (("mk_unary", 1), ("mk_binary", 2), ("mk_hybrid", 1)):
-        cs = [x for x in s.sites if x.kind == "call" and x.is_call_to(ctor)]
-        good = len(cs) == 1
-        why = f"{len(cs)} {ctor} calls"
+    NT, AT_ = E.NT, E.ATOM
+    c, l, r = ("param", "#c"), ("param", "#l"), ("param", "#r")
+    v = ("lit", "v")
+    # ---- Var
+    s, t = spec(E.shape_atom("Var", v))
+    good = t is not None
+    why = "could not be evaluated"
+    if good:
+        lv = leaves(t)
+        good = bool(lv)
+        for conds, leaf in lv:
+            h = has_cond(conds, scope, v)
+            if ok(leaf):
+                mk = leaf[2][0]
+                g = mk[0] == "call" and mk[1].endswith("mk_variable") and q.as_at(mk[2][0]) == (scope, v) and h is True
+                if not g:
+                    good, why = False, f"accepts with {sem.short(leaf, 120)} under scope-has-v={h}"
+            elif err(leaf):
+                if h is not False:
+                    good, why = False, "returns Err although the variable is bound (or without testing the scope)"
+            else:
+                good, why = False, f"returns {sem.short(leaf, 100)}"
+        good = good and any(ok(x) for _, x in lv) and any(err(x) for _, x in lv)
+    report("shape:Var", good, "Var(v): Ok(mk_variable(scope[v])) iff scope has v, else Err", f"variable occurrence: {why}")
+    # ---- Prop
+    p = ("lit", "p")
+    s, t = spec(E.shape_atom("Prop", p))
+    good = t is not None
+    why = "could not be evaluated"
+    if good:
+        lv = leaves(t)
+        for conds, leaf in lv:
+            found = None
+            for cnd, pol in conds:
+                x = q.is_some_test(cnd)
+                if x is not None and x[0] == "call" and x[1].endswith("find_network_variable") and x[2] == (ctx, p):
+                    found = pol
+            if ok(leaf):
+                if not (found is True and leaf[2][0] == E.node_term(E.shape_atom("Prop", p))):
+                    good, why = False, f"accepts {sem.short(leaf, 100)} under is-network-variable={found}"
+            elif err(leaf):
+                if found is not False:
+                    good, why = False, "rejects a proposition that names a network variable (or without looking it up)"
+            else:
+                good, why = False, f"returns {sem.short(leaf, 100)}"
+        good = good and any(ok(x) for _, x in lv) and any(err(x) for _, x in lv)
+    report("shape:Prop", good, "Prop(p): Ok(tree) iff find_network_variable(p) is some", f"proposition: {why}")
+    # ---- constants / wild-card
+    for kind, payload in (("True", None), ("False", None), ("WildCardProp", ("lit", "w"))):
+        sh = E.shape_atom(kind, payload) if payload else E.shape_atom(kind)
+        s, t = spec(sh)
+        good = t is not None and ok(t) and t[2][0] == E.node_term(sh)
+        report(f"shape:{kind}", good, f"{kind}: Ok(tree)", f"{kind} terminal: returns {sem.short(t, 120) if t else None}")
+    # ---- Unary / Binary
+    same_scope = lambda a, ch: len(a) == 4 and a[0] == ch and a[1] == scope and a[2] == name and a[3] == ctx      # noqa: E731
+    for op in ("Not", "AG"):
+        opc = ("ctor", E.UOP + op, ())
+        s, t = spec(E.shape_unary(op, c))
+        good = t is not None and ok(t)
         if good:
-            a = cs[0].args
-            kids = a[:arity]
-            good = all(k[0] == "proj" and k[1][0] in ("call", "rec") and k[1][1].endswith("validate_and_rename_recursive") for k in kids)
-            if ctor == "mk_binary" and good:
-                good = kids[0][1][2][0][3] == 1 and kids[1][1][2][0][3] == 2 and a[2] == ("proj", nt, "preprocessing::hctl_tree::NodeType::Binary", 0)
-            if ctor == "mk_unary" and good:
-                good = a[1] == ("proj", nt, "preprocessing::hctl_tree::NodeType::Unary", 0)
-            if ctor == "mk_hybrid" and good:
-                renamed = a[1]
-                good = a[2] == hyb(2) and a[3] == hyb(0) and any(y[0] == "call" and y[1].endswith("::get") and y[2][1] == var for y in subterms(renamed))
-            why = f"arguments {[sem.short(x, 60) for x in a]}"
-        rep.check(good, "C07-R5", f"validate/{ctor}", cs[0].where() if cs else where, f"{ctor}(validated children, own operator / domain, renamed variable)", why)
-    rep.floor("C07-R5", 3)
-    # ---- R1: collection of quantifier variables
-    cu = prog.lib_fn("mc_utils::collect_unique_hctl_vars_recursive")
+            mk = t[2][0]
+            good = mk[0] == "call" and mk[1].endswith("mk_unary") and is_rec(mk[2][0], "validate_and_rename_recursive", lambda a: same_scope(a, c)) and mk[2][1] == opc
+        report(f"shape:Unary[{op}]", good, "Unary(op, c): Ok(mk_unary(rec(c, scope, name)?, op))", f"unary node: returns {sem.short(t, 200) if t else None}")
+        check_tries(rep, s, f"Unary[{op}]", 1, where)
+    for op in ("And", "EU"):
+        opc = ("ctor", E.BOP + op, ())
+        s, t = spec(E.shape_binary(op, l, r))
+        good = t is not None and ok(t)
+        if good:
+            mk = t[2][0]
+            good = (mk[0] == "call" and mk[1].endswith("mk_binary") and is_rec(mk[2][0], "validate_and_rename_recursive", lambda a: same_scope(a, l))
+                    and is_rec(mk[2][1], "validate_and_rename_recursive", lambda a: same_scope(a, r)) and mk[2][2] == opc)
+        report(f"shape:Binary[{op}]", good, "Binary(op, l, r): Ok(mk_binary(rec(l, scope, name)?, rec(r, scope, name)?, op)) - both children see the parent's scope",
+               f"binary node: returns {sem.short(t, 260) if t else None}")
+        check_tries(rep, s, f"Binary[{op}]", 2, where)
+    # ---- hybrid
+    var = ("lit", "z")
+    for dom_name, dom in (("none", None), ("dom", ("lit", "d"))):
+        domt = ("ctor", E.NONE, ()) if dom is None else ("ctor", E.SOME, (dom,))
+        for op in ("Bind", "Exists", "Forall"):
+            opc = ("ctor", E.HOP + op, ())
+            s, t = spec(E.shape_hybrid(op, var, dom, c))
+            good = t is not None
+            why = "could not be evaluated"
+            if good:
+                lv = leaves(t)
+                for conds, leaf in lv:
+                    h = has_cond(conds, scope, var)
+                    if ok(leaf):
+                        mk = leaf[2][0]
+                        g = mk[0] == "call" and mk[1].endswith("mk_hybrid") and len(mk[2]) == 4 and mk[2][2] == domt and mk[2][3] == opc and h is False
+                        newname = None
+                        if g:
+                            g = is_rec(mk[2][0], "validate_and_rename_recursive",
+                                       lambda a: len(a) == 4 and a[0] == c and scope_plus(a[1], scope, var, name) is not None
+                                       and a[2] == scope_plus(a[1], scope, var, name) and a[3] == ctx)
+                        if g:
+                            newname = scope_plus(mk[2][0][1][2][1], scope, var, name)
+                            renamed = nz(partial.simplify(mk[2][1]))
+                            g = renamed == newname or q.as_at(renamed) == (mk[2][0][1][2][1], var)
+                        if not g:
+                            good, why = False, f"accepts with {sem.short(leaf, 200)} under already-bound={h}"
+                    elif err(leaf):
+                        if h is not True:
+                            good, why = False, "returns Err although the variable is not bound yet (or without testing the scope)"
+                    else:
+                        good, why = False, f"returns {sem.short(leaf, 100)}"
+                good = good and any(ok(x) for _, x in lv) and any(err(x) for _, x in lv)
+            report(f"shape:{op}[{dom_name}]", good,
+                   f"{op}: Err if re-quantified, else child validated in scope+{{var->name+'x'}} and rebuilt with the new name, same domain",
+                   f"{op} node: {why}")
+            check_tries(rep, s, f"{op}[{dom_name}]", 1, where)
+    s, t = spec(E.shape_hybrid("Jump", var, None, c))
+    good = t is not None
+    why = "could not be evaluated"
+    if good:
+        lv = leaves(t)
+        for conds, leaf in lv:
+            h = has_cond(conds, scope, var)
+            if ok(leaf):
+                mk = leaf[2][0]
+                g = (mk[0] == "call" and mk[1].endswith("mk_hybrid") and len(mk[2]) == 4 and mk[2][3] == ("ctor", E.HOP + "Jump", ())
+                     and is_rec(mk[2][0], "validate_and_rename_recursive", lambda a: same_scope(a, c)) and q.as_at(nz(mk[2][1])) == (scope, var) and h is True)
+                if not g:
+                    good, why = False, f"accepts with {sem.short(leaf, 200)} under target-bound={h}"
+            elif err(leaf):
+                if h is not False:
+                    good, why = False, "returns Err although the jump target is bound"
+            else:
+                good, why = False, f"returns {sem.short(leaf, 100)}"
+        good = good and any(ok(x) for _, x in lv) and any(err(x) for _, x in lv)
+    report("shape:Jump", good, "Jump: child validated in the unchanged scope; Ok(mk_hybrid(.., scope[var], .., Jump)) iff the target is bound", f"jump node: {why}")
+    check_tries(rep, s, "Jump", 1, where)
+    rep.floor("C07-R1", 16)
+    rep.floor("C07-R2", 11)
+    check_collection_and_support(prog, rep)
+    check_pass_through(prog, rep)
+
+
+def check_tries(rep, s, key, n, where):
+    """The `?` exits of the specialised validator propagate exactly the recursive calls' results."""
+    if s is None:
+        rep.unresolved("C07-R2", f"propagate:{key}", where, "not evaluated")
+        return
+    tries = [r for r in s.returns if r[5] == "try" and r[0][0] in ("call", "rec") and isinstance(r[0][1], str) and r[0][1].endswith("validate_and_rename_recursive")]
+    rep.check(len(tries) == n, "C07-R2", f"propagate:{key}", where, f"{n} recursive result(s) propagated with `?`",
+              f"{len(tries)} of {n} recursive results are propagated with `?`: an error in a child can be swallowed")
+
+
+def check_collection_and_support(prog, rep):
+    cu = prog.lib_fn(COLLECT)
     if cu is None:
-        rep.unresolved("C07-R1", "collect_unique_hctl_vars_recursive", "", "function not found")
-    else:
-        rep.functions.add(cu.qual)
-        cs = eng.summary(cu)
-        cins = [x for x in cs.sites if x.kind == "mcall" and x.name == "insert"]
-        good = len(cins) == 1 and hybrid_class(cins[0].pc) == QUANT
-        rep.check(good, "C07-R1", "collect_unique_hctl_vars/quantifiers", f"{cu.file}:{cu.line}", "variables collected from bind, exists, forall",
-                  f"variables are collected for {sorted(hybrid_class(cins[0].pc) or []) if cins else None}")
-        recs2 = [x for x in cs.sites if x.kind == "call" and x.is_call_to("collect_unique_hctl_vars_recursive")]
-        kinds = set()
-        for x in recs2:
-            for c in x.pc:
-                if c[0] == "match" and c[3] and c[2][0] == "var":
-                    kinds.add(str(c[2][1]).rsplit("::", 1)[-1])
-        rep.check(kinds == {"Unary", "Binary", "Hybrid"} and len(recs2) == 4, "C07-R1", "collect_unique_hctl_vars/traversal", f"{cu.file}:{cu.line}",
-                  "all children are visited", f"recursion covers {sorted(kinds)} with {len(recs2)} calls (expected 4)")
+        rep.unresolved("C07-R4", "collect_unique_hctl_vars_recursive", "", "function not found")
+        return
+    rep.functions.add(cu.qual)
+    pn = cu.param_names()
+    eng = terms.Engine(prog, inline=True, hooks=E.Hooks(["mc_utils::"], opaque_names=[COLLECT]))
+    seen = ("param", pn[1])
+    c, l, r = ("param", "#c"), ("param", "#l"), ("param", "#r")
+
+    def facts_of(shape):
+        s = eng.specialise(cu, {pn[0]: E.node_term(shape)})
+        if s is None:
+            return None, None, None
+        recs = [x for x in s.all_sites() if x.kind == "call" and x.is_call_to("collect_unique_hctl_vars_recursive")]
+        ins = [x for x in s.all_sites() if x.kind == "mcall" and x.name == "insert"]
+        return s, recs, ins
+    where = f"{cu.file}:{cu.line}"
+    cases = [("Terminal", E.shape_atom("Prop", ("lit", "p")), [], None), ("Unary", E.shape_unary("EX", c), [c], None),
+             ("Binary", E.shape_binary("And", l, r), [l, r], None)]
+    for op in ("Bind", "Exists", "Forall", "Jump"):
+        cases.append((op, E.shape_hybrid(op, ("lit", "z"), None, c), [c], ("lit", "z") if op in QUANT else None))
+    for name, shape, kids, var in cases:
+        s, recs, ins = facts_of(shape)
+        if s is None:
+            rep.unresolved("C07-R4", f"collect:{name}", where, "not evaluated")
+            continue
+        visited = [x.args[0] for x in recs]
+        inserted = [x.args[1] for x in ins if len(x.args) >= 2]
+        good = sorted(map(repr, visited)) == sorted(map(repr, kids)) and (inserted == ([var] if var else []))
+        ret_ok = s.ret is not None and (terms.mentions_param(s.ret, pn[1]) or s.ret == seen)
+        rep.check(good and ret_ok, "C07-R4", f"collect:{name}", where,
+                  "every child is visited; the variable is collected exactly for bind / exists / forall; earlier findings are kept",
+                  f"for a {name} node: visited children {[sem.short(x, 30) for x in visited]}, collected {[sem.short(x, 30) for x in inserted]}; "
+                  f"expected children {[sem.short(x, 30) for x in kids]}, collected {[sem.short(var, 30)] if var else []}")
     chk = prog.lib_fn("mc_utils::check_hctl_var_support")
-    if chk is not None:
-        rep.functions.add(chk.qual)
-        cs = eng.summary(chk)
-        cpn = chk.param_names()
-        rets = [r for r in cs.returns if r[5] != "try"]
-        falses = [r for r in rets if r[0] == ("lit", False)]
-        good = False
-        for r in falses:
-            for c in r[1]:
-                if c[0] == "if" and c[2] and c[1][0] == "bin" and c[1][1] == ">":
-                    l, rr = c[1][2], c[1][3]
-                    if "collect_unique_hctl_vars" in pt(l) and l[0] == "call" and l[1].endswith("::len") and "extra_state_variables" in pt(rr) and rr[0] == "call" and rr[1].endswith("::len"):
+    if chk is None:
+        rep.unresolved("C07-R4", "check_hctl_var_support", "", "function not found")
+        return
+    rep.functions.add(chk.qual)
+    s = terms.Engine(prog, inline=True, hooks=E.Hooks([], inline_names=[])).summary(chk)
+    cpn = chk.param_names()
+    t = s.ret
+    # false iff  #collected variables > #extra variable sets of some network variable:  either an explicit loop with `return false`,
+    # or `variables().all(|v| n <= extra(v).len())`
+    txt = pt(t)
+    uses = "collect_unique_hctl_vars" in txt and "extra_state_variables" in txt and "len(" in txt
+    good = False
+    for x in [t] + list(subterms(t)):
+        if x[0] == "hof" and x[1] == "all":
+            b = x[3]
+            neg = False
+            while b[0] == "not":
+                neg, b = not neg, b[1]
+            if b[0] == "bin" and "collect_unique_hctl_vars" in pt(b) and "extra_state_variables" in pt(b):
+                lhs_is_count = "collect_unique_hctl_vars" in pt(b[2])
+                op = b[1]
+                holds = (op in ("<=",) and lhs_is_count) or (op in (">=",) and not lhs_is_count)
+                fails = (op in (">",) and lhs_is_count) or (op in ("<",) and not lhs_is_count)
+                good = (holds and not neg) or (fails and neg)
+    for r in s.returns:
+        if r[0] == ("lit", False):
+            for cnd, pol in q.conds(r[1]):
+                if cnd[0] == "bin" and "collect_unique_hctl_vars" in pt(cnd) and "extra_state_variables" in pt(cnd):
+                    lhs_is_count = "collect_unique_hctl_vars" in pt(cnd[2])
+                    if pol and ((cnd[1] == ">" and lhs_is_count) or (cnd[1] == "<" and not lhs_is_count)):
                         good = True
-        rep.check(good and any(r[0] == ("lit", True) for r in rets), "C07-R4", "check_hctl_var_support", f"{chk.file}:{chk.line}",
-                  "false iff #quantifier variables > #extra variable sets of some network variable", "support check does not compare the number of collected variables with the number of extra variable sets")
-    # ---- R4 must-pass-through
-    deng = terms.Engine(prog, inline=True, hooks=E.Hooks(["model_checking::", "preprocessing::parser::parse_and_minimize"],
-                                                         inline_names=["preprocessing::parser::parse_and_minimize_hctl_formula", "preprocessing::parser::parse_and_minimize_extended_formula"]))
+                    if not pol and ((cnd[1] == "<=" and lhs_is_count) or (cnd[1] == ">=" and not lhs_is_count)):
+                        good = True
+    rep.check(good and uses and terms.mentions_param(t, cpn[1]) if len(cpn) > 1 else False, "C07-R4", "check_hctl_var_support", f"{chk.file}:{chk.line}",
+              "false iff #quantifier variables of the tree > #spare variable sets of some network variable",
+              f"support check computes {sem.short(t, 200)}: it must compare the number of collected variables with the number of spare variable sets of every network variable")
+
+
+def check_pass_through(prog, rep):
+    deng = terms.Engine(prog, inline=True, hooks=E.Hooks(["model_checking::", "preprocessing::parser::parse_and_minimize"]))
     for ep in pipelines.entry_points(prog):
         strs = [t for t in ep.param_tys if "str" in t]
         if not strs:
@@ -257,7 +371,7 @@ def run(prog, rep):
         good = bool(evs)
         for ev in evs:
             node = ev.args[0]
-            vals = [y for y in subterms(node) if y[0] == "call" and y[1].endswith("validate_props_and_rename_vars")]
+            vals = [y for y in [node] + list(subterms(node)) if y[0] == "call" and y[1].endswith("validate_props_and_rename_vars")]
             if not vals or not any(z[0] == "call" and ("parse_hctl_formula" in z[1] or "parse_extended_formula" in z[1]) for z in subterms(vals[0])):
                 good = False
         sup = [x for x in sm.all_sites() if x.kind == "call" and x.is_call_to("check_hctl_var_support")]
@@ -266,14 +380,22 @@ def run(prog, rep):
                   "a tree reaches eval_node without passing validate_props_and_rename_vars / check_hctl_var_support")
     an = prog.lib_fn("analysis::analyse_formulae")
     if an is not None:
-        sm = eng.summary(an)
+        sm = terms.Engine(prog, inline=True, hooks=E.Hooks(["analysis::"])).summary(an)
         evs = pipelines.eval_sites(sm)
-        vals = [x for x in sm.sites if x.kind == "call" and x.is_call_to("validate_props_and_rename_vars")]
-        good = bool(evs) and len(vals) == 1
-        if good:
-            pushed = [x for x in sm.sites if x.kind == "mcall" and x.name == "push" and any(y == vals[0].term for a in x.args[1:] for y in [a] + list(subterms(a)))]
-            good = bool(pushed)
+        good = bool(evs)
+        for ev in evs:
+            node = ev.args[0]
+            if not any(y[0] == "call" and y[1].endswith("validate_props_and_rename_vars") for y in [node] + list(subterms(node))):
+                good = False
         rep.check(good, "C07-R4", "analyse_formulae/validated", f"{an.file}:{an.line}", "the command-line analysis evaluates validated trees",
                   "analyse_formulae evaluates trees that did not pass validate_props_and_rename_vars")
-    rep.floor("C07-R4", 18)
-    rep.floor("C07-R1", 3)
+    vp = prog.lib_fn(UTILS + "validate_props_and_rename_vars")
+    if vp is not None:
+        s = terms.Engine(prog, inline=False).summary(vp)
+        calls = [x for x in s.sites if x.kind == "call" and x.is_call_to("validate_and_rename_recursive")]
+        pn = vp.param_names()
+        good = len(calls) == 1 and calls[0].args[0] == ("param", pn[0]) and terms.is_fresh_collection(calls[0].args[1]) and \
+            terms.is_fresh_collection(calls[0].args[2]) and calls[0].args[3] == ("param", pn[1]) and s.ret == calls[0].term
+        rep.check(good, "C07-R4", "validate_props_and_rename_vars/entry", f"{vp.file}:{vp.line}", "starts the validator with an empty scope and an empty name",
+                  "the validation entry does not start from an empty scope map and an empty name")
+    rep.floor("C07-R4", 26)
